@@ -20,21 +20,36 @@ def run(ctx):
                 "real vek call (determinant of Mat2/3/4 in both layouts, also after transposition and layout change; "
                 "inverted/invert, inverted_affine_transform_no_scale, inverted_affine_transform in both layouts on "
                 "general, rigid and T*R*S matrices with exact rational rotations) whose result TLC recomputes by "
-                "Leibniz/cofactors and additionally multiplies back to the identity on both sides; non-trivial = "
+                "Leibniz/cofactors and additionally multiplies back to the identity on both sides; on the symbolic lane the "
+                "determinant is compared as a polynomial in all entries and the inverse N/D of a matrix of 16 free symbols is "
+                "checked by A*N = N*A = D*I (rational-function identity); non-trivial = "
                 "operand with at most 4 zero entries")
     thorough = ctx.tier == "thorough"
-    cfgs = ["Law_Mat_2x2_P2p", "Law_Mat_2_rand", "Law_Mat_3_rand", "Law_Mat_4_rand"]
+    cfgs = ["Law_Mat_2_S", "Law_Mat_3_S", "Law_Mat_4_S", "Law_Mat_2x2_P2p", "Law_Mat_2_rand", "Law_Mat_3_rand", "Law_Mat_4_rand"]
     if thorough:
         cfgs += ["Law_Mat_2x2_P3", "Law_Mat_3_rand_big", "Law_Mat_4_rand_big"]
     core.law_runs(ctx, "Law_Mat", cfgs)
     n = 400 if thorough else 30
+    # symbolic lane: determinants of matrices of 4/9/16 free symbols compared with the Leibniz polynomial; the general inverse
+    # on 16 free symbols (and on affine / triangular / checkerboard symbol patterns) returned as N/D and checked fraction-free:
+    # A*N = N*A = D*I, D # 0 - the rational-function identity, for every matrix at once; the rigid fast inverse as a polynomial
+    def corrupt_sym(rs):
+        i = next(k for k, r in enumerate(rs) if r["op"] == "inv_sym")
+        t = rs[i]["obs"]["num"][1][2]["ply"]
+        rs[i]["obs"]["num"][1][2] = {"ply": [[t[0][0] + 1, t[0][1]]] + t[1:]}
+        return i
+    core.drive_validate(ctx, "detinv", "Trace_Mat", "Trace_Mat_S", "detinv-sym", 1, ["det", "inv_sym", "inv_rigid_sym"], key=key,
+                        extra_args=["--lane", "sym"], corrupt=corrupt_sym)
     core.drive_validate(ctx, "detinv", "Trace_Mat", "Trace_Mat_F", "detinv-q", n, OPS_Q, key=key,
                         extra_args=["--lane", "q"], corrupt_op="inv", nontrivial=nontrivial)
     core.drive_validate(ctx, "detinv", "Trace_Mat", "Trace_Mat_Z", "detinv-z", n, ["det"], key=key,
                         extra_args=["--lane", "z"], corrupt_op="det", nontrivial=nontrivial)
-    ctx.assumptions = ["exact arithmetic: rational operands and results are compared in the prime field Z_46337",
+    ctx.assumptions = ["symbolic lane: vek is generic in T and stable Rust has no specialisation, so the rational function returned "
+                       "on free symbols is the function computed for every element type (parametricity); the branching affine "
+                       "inverse (epsilon comparison) is not in this lane",
+                       "exact arithmetic: rational operands and results are compared in the prime field Z_46337",
                        "operands are sampled (seeded): general small rational matrices, sparse ones, exact rational "
-                       "rotations from integer quaternions, scales in +-{1/8..8}; not a symbolic identity",
+                       "rotations from integer quaternions, scales in +-{1/8..8} (the rational lane is sampling)",
                        "a sample whose determinant vanishes (in Q or modulo 46337) is dropped and counted as inconclusive"]
 
 
